@@ -1165,13 +1165,22 @@ class Structure(UniqueMixin, metaclass=StructMeta):
                 getattr(self, "_none_fields").add(key)
             return
 
+        had_value, old_value = key in self.__dict__, self.__dict__.get(key)
+        try:
+            super().__setattr__(key, value)
+        except Exception:
+            # a rejected assignment leaves the instance as it was
+            if had_value:
+                self.__dict__[key] = old_value
+            else:
+                self.__dict__.pop(key, None)
+            raise
         if (
                 key in self.get_all_fields_by_name()
                 and getattr(self, ENABLE_UNDEFINED, False)
                 and value is not None
         ):
             getattr(self, "_none_fields").discard(key)
-        super().__setattr__(key, value)
 
         if (
                 TypedPyDefaults.uniqueness_features_enabled
